@@ -6,7 +6,8 @@ CONSTANTS
                 "serialized_as_garbage", "tuple_field", "u64_field", "nested_mod_fn", "unicode_rename", "raw_ident_field",
                 "doc_weird", "array_len_expr", "fn_pointer_field", "impl_trait_alias", "lifetime_generic", "const_generic",
                 "where_clause", "macro_item", "empty_file_marker",
-                "generic_tree", "generic_enum_two_selfrefs", "mutual_generic_twice", "generic_list", "nonascii_enum_name", "nonascii_struct_name"}
+                "generic_tree", "generic_enum_two_selfrefs", "mutual_generic_twice", "generic_list", "nonascii_enum_name", "nonascii_struct_name",
+                "dangling_symlink", "symlink_loop_dir", "dir_named_rs"}
   Packages = {"given", "none"}
   Langs = {"typescript", "kotlin", "swift", "scala", "go", "python"}
   Modes = {"single", "multi"}
